@@ -1142,12 +1142,155 @@ def emit_serde(S):
     return out
 
 # ----------------------------------------------------------------------------
+# auto-trait impls and borrow signatures (C13)
+# ----------------------------------------------------------------------------
+def bounds_of(blist):
+    out = []
+    for b in blist:
+        if b[0] == 'bmaybe' and b[1] == 'Sized': out.append('BMaybeSized')
+        elif b[0] == 'btrait' and b[1][0] == 'tpath' and b[1][1][-1] in ('Send', 'Sync') and not b[1][2]: out.append('B' + b[1][1][-1])
+        elif b[0] == 'blifetime': pass
+        else: out.append('BOtherBound')
+    return out
+
+def extract_traits(src, facts, notes):
+    T = dict(auto=[], sigs=[], markers={})
+    # lifetime parameters of the crate's types (structs and enums)
+    ltparams = {}
+    for f, items in src.items.items():
+        for it in walk_items(items):
+            if it.kind in ('struct', 'enum'):
+                try:
+                    cur = Cur(it.header); cur.next(); cur.next()
+                    g = parse_generic_params(skip_angle(cur)) if cur.at('<') else []
+                    ltparams[it.name] = len([x for x in g if x[0] == 'lifetime'])
+                except ParseError:
+                    ltparams[it.name] = 0
+    # ---- unsafe impl Send/Sync
+    for f, items in src.items.items():
+        for it in walk_items(items):
+            if it.kind != 'impl' or it.cfg_test(): continue
+            info = src.impl_info(it)
+            if not info or info['trait'] is None: continue
+            tr = type_text(info['trait']).replace(' ', '')
+            if tr not in ('Send', 'Sync'): continue
+            st = info['self_ty']
+            head = st[1][-1] if st[0] == 'tpath' else type_text(st)
+            gmap = dict((g[1], bounds_of(g[2])) for g in info['generics'] if g[0] == 'type')
+            for w in info['where']:
+                if w[0] in gmap: gmap[w[0]] += bounds_of(w[1])
+                else: gmap.setdefault('?where', []).append('BOtherBound')
+            params = []
+            for a in (st[2] if st[0] == 'tpath' else []):
+                if a[0] == 'tlifetime': continue
+                if a[0] == 'tpath' and len(a[1]) == 1 and not a[2] and a[1][0] in gmap: params.append(gmap[a[1][0]])
+                else: params.append(['BOtherBound'])
+            if '?where' in gmap: params = [p + ['BOtherBound'] for p in params]
+            T['auto'].append(dict(file=f, head=head, trait=tr, params=params, neg=bool(info.get('neg')), unsafe=bool(info.get('unsafe'))))
+    T['auto'].sort(key=lambda d: (d['head'], d['trait']))
+    # ---- PhantomData<T> markers of the owning handles (dropck: the handle owns its payload)
+    S = facts.get('structs', {})
+    for name in ('Arc', 'ThinArc', 'OffsetArc', 'ArcUnion', 'ArcBorrow'):
+        d = S.get(name)
+        if not d: T['markers'][name] = False; continue
+        tparams = [g[1] for g in d['generics'] if g[0] == 'type']
+        ph = ' '.join(type_text(ty).replace(' ', '') for nm, vis, ty in d['fields'] if type_text(ty).replace(' ', '').startswith('PhantomData<'))
+        if name == 'ArcBorrow':
+            T['markers'][name] = "PhantomData<&'aT>" in ph
+        else:
+            T['markers'][name] = all(re.search(r'[<(,]%s[>),]' % re.escape(tp), ph) for tp in tparams) and bool(tparams)
+    d = S.get('UniqueArc')
+    T['markers']['UniqueArc'] = bool(d) and [type_text(ty).replace(' ', '') for nm, vis, ty in d['fields']] == ['Arc<T>']
+    # ---- signatures
+    def lts_of(ty, names, self_ty):
+        """lifetimes occurring in a type, in order"""
+        if ty is None: return []
+        k = ty[0]
+        if k == 'tref':
+            l = ty[1]
+            me = 'LElided' if l in (None, "'_") else ('LStatic' if l == "'static" else ('(LVar %d)' % names[l] if l in names else '(LVar 999)'))
+            return [me] + lts_of(ty[3], names, self_ty)
+        if k == 'tpath':
+            if ty[1] == ['Self'] and self_ty is not None: return lts_of(self_ty, names, None)
+            out = []
+            head = ty[1][-1]
+            explicit = [a for a in ty[2] if a[0] == 'tlifetime']
+            for a in explicit:
+                l = a[1]
+                out.append('LElided' if l == "'_" else ('LStatic' if l == "'static" else ('(LVar %d)' % names[l] if l in names else '(LVar 999)')))
+            for _ in range(max(0, ltparams.get(head, 0) - len(explicit))): out.append('LElided')
+            for a in ty[2]:
+                if a[0] != 'tlifetime': out += lts_of(a, names, self_ty)
+            return out
+        if k in ('tslice', 'tarray'): return lts_of(ty[1], names, self_ty)
+        if k == 'ttuple': return [x for t in ty[1] for x in lts_of(t, names, self_ty)]
+        if k == 'tfntrait': return [x for t in ty[2] for x in lts_of(t, names, self_ty)] + lts_of(ty[3], names, self_ty)
+        return []
+    for f, imp, fn in src.fns:
+        if fn.cfg_test() or (imp is not None and imp.cfg_test()): continue
+        p = fn.parent
+        skip = False
+        while p is not None:
+            if p.cfg_test(): skip = True
+            p = p.parent
+        if skip: continue
+        try:
+            sig = parse_fn_sig(fn.header)
+        except ParseError as ex:
+            notes.append('traits: signature of %s: %s' % (fn.name, ex)); continue
+        info = src.impl_info(imp) if imp is not None else None
+        is_trait_impl = bool(info and info['trait'] is not None)
+        if 'unsafe' in sig['quals']: continue
+        if not is_trait_impl and fn.vis != 'pub': continue
+        names = {}
+        impl_lts = []
+        if info:
+            for g in info['generics']:
+                if g[0] == 'lifetime': names[g[1]] = len(names); impl_lts.append(names[g[1]])
+        for g in sig['generics']:
+            if g[0] == 'lifetime': names[g[1]] = len(names)
+        self_ty = info['self_ty'] if info else None
+        ret = lts_of(sig['ret'], names, self_ty)
+        cbs = []; cb_plain = True
+        tparams = [g[1] for g in sig['generics'] if g[0] == 'type']
+        blists = [g[2] for g in sig['generics'] if g[0] == 'type'] + [w[1] for w in sig['where']]
+        has_cb = False
+        for bl in blists:
+            for b in bl:
+                if b[0] == 'btrait' and b[1][0] == 'tfntrait':
+                    has_cb = True
+                    for a in b[1][2]: cbs += lts_of(a, names, self_ty)
+                    r = b[1][3]
+                    if r is not None and not (r[0] == 'tpath' and len(r[1]) == 1 and not r[2] and r[1][0] in tparams) and not (r[0] == 'ttuple' and not r[1]):
+                        cb_plain = False
+        if not ret and not has_cb: continue
+        inputs = [lts_of(ty, names, self_ty) for pn, ty in sig['params']]
+        self_ref = bool(sig['params']) and sig['params'][0][0] == 'self' and sig['params'][0][1][0] == 'tref'
+        T['sigs'].append(dict(file=f, name=src.qual_name(imp, fn) + ('' if not is_trait_impl else ' (%s)' % type_text(info['trait']).replace(' ', '')),
+                              impl_lts=impl_lts, inputs=inputs, self_ref=self_ref, ret=ret, cb=cbs, cb_plain=cb_plain))
+    T['sigs'].sort(key=lambda d: (d['file'], d['name']))
+    facts['traits'] = T
+
+def emit_traits(T):
+    out = ['(* --- unsafe impl Send/Sync (closed world) and the signatures of every safe fn that returns a borrow or takes a callback --- *)']
+    rows = ['mkAI %s %s %s' % (coq_str(a['head']), 'TrSend' if a['trait'] == 'Send' else 'TrSync', coq_list([coq_list(p) for p in a['params']]))
+            for a in T['auto'] if not a['neg']]
+    out.append('Definition auto_impls : list auto_impl :=\n  ' + coq_list(rows, ';\n   ') + '.')
+    out.append('Definition negative_auto_impls : nat := %d.' % len([a for a in T['auto'] if a['neg']]))
+    rows = ['(%s, mkSig %s %s %s %s %s %s)' % (coq_str(s['name']), coq_list(['%d' % x for x in s['impl_lts']]), coq_list([coq_list(i) for i in s['inputs']]),
+                                               'true' if s['self_ref'] else 'false', coq_list(s['ret']), coq_list(s['cb']), 'true' if s['cb_plain'] else 'false')
+            for s in T['sigs']]
+    out.append('Definition borrow_sigs : list (string * sig) :=\n  ' + coq_list(rows, ';\n   ') + '.')
+    out.append('Definition owning_markers_ok : bool := %s.' % ('true' if T['markers'] and all(T['markers'].values()) else 'false'))
+    return out
+
+# ----------------------------------------------------------------------------
 # driver
 # ----------------------------------------------------------------------------
 HEADER = '''(* GENERATED by tools/extract.py from %s -- do not edit.
    source digest: %s *)
 From Coq Require Import NArith List String.
-From TV Require Import Layout SrcFacts Bits Conc Guard Cmp Serde.
+From TV Require Import Layout SrcFacts Bits Conc Guard Cmp Serde Traits.
 Import ListNotations.
 Open Scope N_scope.
 '''
@@ -1162,6 +1305,7 @@ def run(srcdir):
     extract_pointers(src, facts, notes)
     extract_cmp(src, facts, notes)
     extract_serde(src, facts, notes)
+    extract_traits(src, facts, notes)
     facts['notes'] = notes
     h = hashlib.sha256()
     for f in sorted(os.listdir(srcdir)):
@@ -1176,6 +1320,7 @@ def run(srcdir):
     lines += emit_pointers(facts['pointers']); lines.append('')
     lines += emit_cmp(facts['cmp']); lines.append('')
     lines += emit_serde(facts['serde']); lines.append('')
+    lines += emit_traits(facts['traits']); lines.append('')
     return facts, '\n'.join(lines) + '\n'
 
 def jsonable(x):
